@@ -54,3 +54,11 @@ func init() {
 	}
 	registerReplay([]string{"(*dht/traversal.Operation).startQuery", "(*dht/traversal.Operation).addNodeLocked", "(*dht/traversal.Operation).run"}, "traversal", "traversal/traversal_replay_test.go", "TestGovcReplayTraversal")
 }
+
+func init() {
+	noModelReplay["(*dht.Server).BootstrapContext#post:the-lookup-started-is-stopped-on-every-path"] = true
+	noModelReplay["dht/exts/getput.Get#post:the-lookup-started-is-stopped-on-every-path"] = true
+	noModelReplay["dht/exts/getput.Put#post:the-lookup-started-is-stopped-on-every-path"] = true
+	registerReplay([]string{"(*dht.Server).BootstrapContext"}, ".", "root/lookup_replay_test.go", "TestGovcReplayLookupStop")
+	registerReplay([]string{"dht/exts/getput.Get", "dht/exts/getput.Put"}, "exts/getput", "getput/getput_replay_test.go", "TestGovcReplayGetputStop")
+}
